@@ -219,6 +219,65 @@ def canon_classes(classes):
     return [walk_class(c, {}) for c in classes]
 
 
+class _FakeTemplate:
+    """Stands in for a Jinja template: returns its arguments, serialised.  Lets the REAL
+    DataclassGenerator.render_package / render_module / render_classes run (the shared harness
+    overrides them with the stand-in renderer, so their own sorting/grouping logic would
+    otherwise go unexercised)."""
+
+    def __init__(self, name):
+        self.name = name
+
+    def render(self, **kw):
+        def ser(v):
+            from xsdata.codegen.models import Class, Import
+            if isinstance(v, Import):
+                return [v.qname, v.source, v.alias]
+            if isinstance(v, Class):
+                return v.qname
+            if isinstance(v, (list, tuple)):
+                return [ser(x) for x in v]
+            if v is None or isinstance(v, (str, int, bool)):
+                return v
+            return repr(v)
+
+        return json.dumps({"template": self.name, "args": {k: ser(v) for k, v in kw.items()}}, sort_keys=True)
+
+
+class _FakeEnv:
+    def get_template(self, name):
+        return _FakeTemplate(name)
+
+
+def real_render(run):
+    """The arguments the real generator methods hand to the templates, per package / module."""
+    from pathlib import Path
+
+    from xsdata.codegen.resolver import DependenciesResolver
+    from xsdata.formats.dataclass.generator import DataclassGenerator
+
+    gen, classes = run.generator, run.classes
+    if gen is None or classes is None:
+        return None
+    old_env, old_cwd = gen.env, os.getcwd()
+    out = {}
+    try:
+        os.chdir(run.out_dir)
+        gen.env = _FakeEnv()
+        resolver = DependenciesResolver(registry={obj.qname: obj.target_module for obj in classes})
+        for path, cluster in gen.group_by_package(classes).items():
+            module = ".".join(path.relative_to(Path.cwd()).parts)
+            out["package " + module] = DataclassGenerator.render_package(gen, cluster, module)
+        for path, cluster in gen.group_by_module(classes).items():
+            out["module " + str(path.relative_to(Path.cwd()))] = DataclassGenerator.render_module(gen, resolver, cluster)
+    except Exception as e:  # noqa
+        out["error"] = exc(e)
+    finally:
+        gen.env = old_env
+        os.chdir(old_cwd)
+    return out
+
+
 def op_pipeline(op):
     """One generation through the real pipeline; returns every written file's bytes (as
     text), the stand-in sources, the file list and the canonicalised class dump."""
@@ -235,13 +294,15 @@ def op_pipeline(op):
                     files[rel] = f.read()
             except Exception as e:  # noqa
                 files[rel] = "<unreadable: %r>" % (e,)
+        real = real_render(run) if res["status"] == "ok" else None
     err = res.get("error")
     out = {"id": op.get("id"), "status": res["status"], "stage": res["stage"],
            "error": None if err is None else {"type": err["type"], "message": err["message"], "where": err["where"]},
            "warnings": res.get("warnings"), "log": res.get("log"),
            "files": files, "file_list": sorted(files),
            "modules": {m["path"]: m.get("source") for m in res.get("modules", [])},
-           "packages": {m["path"]: m.get("source") for m in res.get("packages", [])}}
+           "packages": {m["path"]: m.get("source") for m in res.get("packages", [])},
+           "real_render": real}
     if op.get("raw_classes"):
         out["raw_classes"] = res.get("classes")
     out["classes"] = canon_classes(res.get("classes") or [])
